@@ -72,11 +72,15 @@ Relative == /\ Emit([op |-> "iv.relative_to", ty |-> "f64", a |-> a, b |-> b, gr
 
 Relative3 == Emit([op |-> "iv.relative_round", ty |-> "f64", a |-> a, b |-> b, scale |-> RelScale])
 
+\* two-sided float intervals with infinite bounds (codes 0 = -inf, 1 = 1.0, 2 = +inf), emitted once
+InfiniteBounds == \A lo \in 0..2, hi \in 0..2 : Emit([op |-> "iv.infinite_bounds", ty |-> "f64", lo |-> lo, hi |-> hi])
+
 Next == /\ ~done
         /\ done' = TRUE
         /\ UNCHANGED <<a, b>>
         /\ CASE Family = "chain" -> (Binary /\ (a = b => Unary)
-                                      /\ ((Want("C14") /\ a.k = "two" /\ b.k = "two" /\ a.lo = a.hi /\ b.lo = b.hi) => Make))
+                                      /\ ((Want("C14") /\ a.k = "two" /\ b.k = "two" /\ a.lo = a.hi /\ b.lo = b.hi) => Make)
+                                      /\ ((Want("C14") /\ a = b /\ a.k = "two" /\ a.lo = 0 /\ a.hi = 0) => InfiniteBounds))
              [] Family = "box"   -> (BinArith /\ (a = b => Scalar))
              [] Family = "rel"   -> Relative
              [] Family = "rel3"  -> Relative3
